@@ -1968,3 +1968,257 @@ package sio
 //@     requires recv == _eio && closes == 0 [C10.cli.connection.closed.when.its.use.ends]
 //@     update closes = closes + 1
 //@   ensures closes == 1 && !active [C10.cli.ended.connection.deactivated.and.closed]
+
+// ---------------------------------------------------------------------------------------------
+// Thin contracts on the small delegating functions the larger contracts above take on trust at their call sites
+// (`callsite ... skip`): each names the object, the id, the reason or the packet type the delegation must carry.
+// C06 / C04: a socket leaves the rooms of ITS id on ITS adapter.
+//@ func (*serverSocket).leaveAll
+//@   opt safety off
+//@   requires s != nil
+//@   ghost n int = 0
+//@   callsite DeleteAll
+//@     requires recv == s.adapter && arg0 == s.id [C06.sock.leaves.every.room.under.its.own.id]
+//@     update n = n + 1
+//@   ensures n == 1 [C06.sock.leaves.every.room]
+//@ func (*serverSocket).Leave
+//@   opt safety off
+//@   requires s != nil
+//@   ghost n int = 0
+//@   callsite Log skip
+//@   callsite Delete
+//@     requires recv == s.adapter && arg0 == s.id && arg1 == room [C04.leave.that.room.under.its.own.id]
+//@     update n = n + 1
+//@   ensures n == 1 [C04.leave.reaches.the.adapter]
+//@ func (*serverSocket).onDisconnect
+//@   opt safety off
+//@   requires s != nil
+//@   ghost n int = 0
+//@   callsite Log skip
+//@   callsite (*serverSocket).onClose skip
+//@     requires recv == s && arg0 == ReasonClientNamespaceDisconnect [C06.sock.peer.disconnect.names.the.cause]
+//@     update n = n + 1
+//@   ensures n == 1 [C06.sock.peer.disconnect.closes.the.socket]
+// C06: Disconnect(true) / server shutdown: every socket the connection holds is told and ended, the tables first.
+//@ func (*serverConn).disconnectAll
+//@   opt safety off
+//@   requires c != nil
+//@   ghost got int = 0
+//@   ghost ended int = 0
+//@   callsite (*serverSocketStore).getAndRemoveAll skip
+//@     requires recv == c.sockets [C06.conn.disconnectall.drains.own]
+//@     updateafter got = len(result)
+//@   callsite (*serverSocket).Disconnect skip
+//@     requires !arg0 [C06.conn.disconnectall.each.namespace.on.its.own]
+//@     update ended = ended + 1
+//@   loop 0 invariant ended == rangeindex + 1 && rangelen == got
+//@   ensures ended == got [C06.conn.disconnectall.everyone]
+// C10: an error of the connection reaches the error handlers of every socket on it; a fatal one also closes the
+// Engine.IO session.
+//@ func (*serverConn).onError
+//@   opt safety off
+//@   requires c != nil
+//@   ghost got int = 0
+//@   ghost told int = 0
+//@   callsite (*serverSocketStore).getAll skip
+//@     requires recv == c.sockets
+//@     updateafter got = len(result)
+//@   callsite (*serverSocket).onError skip
+//@     requires arg0 == err [C10.conn.error.handed.on.unchanged]
+//@     update told = told + 1
+//@   loop 0 invariant told == rangeindex + 1 && rangelen == got
+//@   ensures told == got [C10.conn.error.reaches.every.socket]
+//@ func (*serverConn).onFatalError
+//@   opt safety off
+//@   requires c != nil
+//@   ghost got int = 0
+//@   ghost told int = 0
+//@   ghost closes int = 0
+//@   callsite (*serverSocketStore).getAll skip
+//@     requires recv == c.sockets
+//@     updateafter got = len(result)
+//@   callsite (*serverSocket).onError skip
+//@     requires arg0 == err [C10.conn.fatal.error.handed.on.unchanged]
+//@     update told = told + 1
+//@   callsite ServerSocket.Close go
+//@     requires recv == c.eio && closes == 0 [C10.conn.fatal.error.closes.its.own.session]
+//@     update closes = closes + 1
+//@   loop 0 invariant told == rangeindex + 1 && rangelen == got
+//@   ensures told == got && closes == 1 [C10.conn.fatal.error.reported.and.closed]
+// C05 / C06: a control packet (CONNECT, DISCONNECT, CONNECT_ERROR) carries the type asked for and the socket's own
+// namespace, and goes out on the socket's own connection.
+//@ func (*serverSocket).sendControlPacket
+//@   opt safety off
+//@   requires s != nil && s.nsp != nil
+//@   ghost enc int = 0
+//@   callsite Encode skip
+//@     requires arg0 != nil && arg0.Type == typ && arg0.Namespace == s.nsp.name && arg0.ID == nil [C05.srv.control.packet.type.and.own.namespace]
+//@     update enc = enc + 1
+//@   callsite onError skip
+//@   callsite wrapInternalError skip
+//@   callsite (*serverConn).sendBuffers skip
+//@     requires recv == s.conn && enc == 1 [C05.srv.control.packet.on.own.connection]
+//@ func (*clientSocket).sendControlPacket
+//@   opt safety off
+//@   requires s != nil
+//@   ghost enc int = 0
+//@   callsite Encode skip
+//@     requires arg0 != nil && arg0.Type == typ && arg0.Namespace == s.namespace && arg0.ID == nil [C05.cli.control.packet.type.and.own.namespace]
+//@     update enc = enc + 1
+//@   callsite onError skip
+//@   callsite wrapInternalError skip
+//@   callsite sendBuffers
+//@     requires !arg0 && arg1 && enc == 1 [C05.cli.control.packet.forced.never.volatile]
+// C06 (client): a DISCONNECT from the server ends the socket with the reason naming the cause, after the socket has
+// been taken out of the manager's care; Disconnect() tells the server only while attached, and reports the
+// deliberate reason only if the socket was connected or connecting.
+//@ func (*clientSocket).onDisconnect
+//@   opt safety off
+//@   requires s != nil
+//@   ghost destroyed int = 0
+//@   ghost n int = 0
+//@   callsite Log skip
+//@   callsite (*clientSocket).destroy skip
+//@     requires recv == s
+//@     update destroyed = destroyed + 1
+//@   callsite (*clientSocket).onClose skip
+//@     requires recv == s && arg0 == ReasonIOServerDisconnect && destroyed == 1 [C06.cli.server.disconnect.names.the.cause]
+//@     update n = n + 1
+//@   ensures n == 1 [C06.cli.server.disconnect.closes.the.socket]
+//@ func (*clientSocket).Disconnect
+//@   opt safety off
+//@   requires s != nil
+//@   ghost attached bool = false
+//@   ghost told int = 0
+//@   ghost destroyed int = 0
+//@   ghost n int = 0
+//@   callsite Log skip
+//@   callsite (*clientSocket).connectedOrConnectPending skip
+//@     updateafter attached = result
+//@   callsite (*clientSocket).sendControlPacket skip
+//@     requires attached && arg0 == parser.PacketTypeDisconnect && told == 0 && destroyed == 0 [C06.cli.disconnect.tells.the.server.while.attached]
+//@     update told = told + 1
+//@   callsite (*clientSocket).destroy skip
+//@     requires recv == s && (attached ==> told == 1) [C06.cli.disconnect.tells.before.leaving]
+//@     update destroyed = destroyed + 1
+//@   callsite (*clientSocket).onClose skip
+//@     requires recv == s && arg0 == ReasonIOClientDisconnect && destroyed == 1 && n == 0 [C06.cli.disconnect.names.the.cause]
+//@     update n = n + 1
+//@   ensures destroyed == 1 [C06.cli.disconnect.leaves.the.manager]
+//@ func (*clientSocket).destroy
+//@   opt safety off
+//@   requires s != nil
+//@   ghost dereg int = 0
+//@   ghost n int = 0
+//@   callsite (*clientSocket).deregisterSubEvents skip
+//@     requires recv == s
+//@     update dereg = dereg + 1
+//@   callsite (*Manager).destroy skip
+//@     requires recv == s.manager && dereg == 1 [C06.cli.destroy.inactive.before.the.manager.decides]
+//@     update n = n + 1
+//@   ensures n == 1 && dereg == 1 [C06.cli.destroy.both]
+// assumption: the deregistration closure (built by registerSubEvents) does not touch the socket's active flag.
+//@ func (*clientSocket).deregisterSubEvents
+//@   opt safety off
+//@   requires s != nil
+//@   callsite subDeregister skip
+//@   ensures !s.active && s.subDeregister == nil [C06.cli.deregistered.inactive]
+// C15: the connect packet carries the socket's current auth data.
+//@ func (*clientSocket).onOpen
+//@   opt safety off
+//@   requires s != nil
+//@   ghost n int = 0
+//@   callsite Log skip
+//@   callsite (*clientSocket).Auth skip
+//@   callsite (*clientSocket).sendConnectPacket skip
+//@     requires recv == s && n == 0
+//@     update n = n + 1
+//@   ensures n == 1 [C15.cli.open.sends.connect]
+// C15: Close is final - the manager is marked disconnected and told not to reconnect BEFORE the close is announced
+// (a close handler or the reconnect logic must already see it), and the live connection is closed.
+//@ func (*Manager).Close
+//@   opt safety off
+//@   requires m != nil
+//@   ghost n int = 0
+//@   ghost closes int = 0
+//@   callsite Log skip
+//@   callsite (*Manager).onClose skip
+//@     requires recv == m && arg0 == ReasonForcedClose && m.skipReconnect && m.state == clientConnStateDisconnected && n == 0 [C15.close.is.final.before.it.is.announced]
+//@     update n = n + 1
+//@   callsite ClientSocket.Close go
+//@     requires recv == m.eio && n == 1 && closes == 0 [C15.close.closes.the.live.connection]
+//@     update closes = closes + 1
+//@   callsite (*Manager).closePacketQueue skip
+//@     requires arg0 == m.eioPacketQueue
+//@   ensures n == 1 && (old(m.eio) != nil ==> closes == 1) [C15.close.announced.once.connection.closed]
+// C15: the manager closes on its own only when none of its sockets is active any more.
+//@ func (*Manager).destroy
+//@   opt safety off
+//@   requires m != nil
+//@   ghost anyactive bool = false
+//@   ghost n int = 0
+//@   callsite Log skip
+//@   callsite (*clientSocketStore).getAll skip
+//@     requires recv == m.sockets
+//@   callsite (*clientSocket).Active skip
+//@     updateafter anyactive = anyactive || result
+//@   callsite (*Manager).Close skip
+//@     requires recv == m && !anyactive && n == 0 [C15.manager.stays.open.while.a.socket.is.active]
+//@     update n = n + 1
+//@   loop 0 invariant !anyactive && n == 0
+//@   ensures !anyactive ==> n == 1 [C15.manager.closes.with.its.last.socket]
+// C15: a first connection attempt that fails is cleaned up and handed to the reconnection logic - which starts only
+// when no attempt is under way and reconnection is enabled.
+//@ func (*Manager).open
+//@   opt safety off
+//@   requires m != nil
+//@   ghost failed bool = false
+//@   ghost cleaned int = 0
+//@   ghost handed int = 0
+//@   callsite Log skip
+//@   callsite (*Manager).connect skip
+//@     requires !arg0 [C15.open.is.not.a.reconnection]
+//@     updateafter failed = result != nil
+//@   callsite (*Manager).cleanup skip
+//@     requires failed
+//@     update cleaned = cleaned + 1
+//@   callsite (*Manager).maybeReconnectOnOpen skip
+//@     requires failed && cleaned == 1
+//@     update handed = handed + 1
+//@   ensures failed ==> handed == 1 [C15.open.failure.handed.to.reconnection]
+//@   ensures !failed ==> handed == 0 && cleaned == 0 [C15.open.success.keeps.its.subscriptions]
+//@ func (*Manager).maybeReconnectOnOpen
+//@   opt safety off
+//@   requires m != nil && m.backoff != nil
+//@   ghost att int = 0
+//@   ghost n int = 0
+//@   callsite (*backoff).attempts skip
+//@     requires recv == m.backoff
+//@     updateafter att = result
+//@   callsite (*Manager).reconnect skip
+//@     requires att == 0 && !m.noReconnection && !arg0 && n == 0 [C15.open.failure.reconnects.only.when.enabled.and.idle]
+//@     update n = n + 1
+//@   ensures (att == 0 && !m.noReconnection) ==> n == 1 [C15.open.failure.starts.reconnection]
+// C15 / C06: cleanup runs every subscription of the ended connection once and forgets them.
+// assumption: a subscription's cancel function does not register or cancel other subscriptions of the manager.
+//@ func (*Manager).cleanup
+//@   opt safety off
+//@   requires m != nil
+//@   ghost calls int = 0
+//@   callsite sub skip
+//@     update calls = calls + 1
+//@   callsite (*Manager).resetParser skip
+//@   loop 0 invariant calls == rangeindex + 1 && rangelen == len(old(m.subs))
+//@   ensures m.subs == nil [C15.cleanup.forgets.the.subscriptions]
+//@   ensures calls == len(old(m.subs)) [C15.cleanup.cancels.every.subscription.once]
+// C12 / C17 (wiring): an accepted Engine.IO session gets a Socket.IO connection of THIS server around THAT session.
+//@ func (*Server).onEIOSocket
+//@   opt safety off
+//@   requires s != nil
+//@   ghost n int = 0
+//@   ghost cb *eio.Callbacks = nil
+//@   callsite newServerConn skip
+//@     requires arg0 == s && arg1 == eioSocket && n == 0 [C12.wiring.session.wrapped.for.this.server]
+//@     update n = n + 1
+//@     updateafter cb = result1
+//@   ensures n == 1 && result == cb [C12.wiring.session.callbacks.of.that.connection]
